@@ -239,21 +239,25 @@ func loadSpec(prop string) (*PropSpec, error) {
 
 func loadKnown(prop string) map[string]*KnownFinding {
 	r := map[string]*KnownFinding{}
-	b, err := os.ReadFile(filepath.Join(verifDir, "known_findings.json"))
-	if err != nil {
-		return r
-	}
-	var all struct {
-		Findings []KnownFinding `json:"findings"`
-	}
-	if err := json.Unmarshal(b, &all); err != nil {
-		fmt.Fprintln(os.Stderr, "known_findings.json:", err)
-		return r
-	}
-	for i := range all.Findings {
-		f := &all.Findings[i]
-		if f.Property == prop && f.Status == "known" {
-			r[f.ID] = f
+	// the committed findings file, plus (while a harness is being built) a
+	// per-property draft that is merged into the former before registration
+	for _, file := range []string{filepath.Join(verifDir, "known_findings.json"), filepath.Join(verifDir, "harness", prop, "known_local.json")} {
+		b, err := os.ReadFile(file)
+		if err != nil {
+			continue
+		}
+		var all struct {
+			Findings []KnownFinding `json:"findings"`
+		}
+		if err := json.Unmarshal(b, &all); err != nil {
+			fmt.Fprintln(os.Stderr, file+":", err)
+			continue
+		}
+		for i := range all.Findings {
+			f := &all.Findings[i]
+			if f.Property == prop && f.Status == "known" {
+				r[f.ID] = f
+			}
 		}
 	}
 	return r
